@@ -206,10 +206,136 @@ for m, r in zip(MUTANTS, results):
     distinct.add((r.get('test_rc'), (r.get('outcome') or r.get('verdict', [''])[1]).split(':')[0]))
     if len(samples) < 4:
         samples.append({'mutation': m[0], 'test_rc': r.get('test_rc'), 'outcome': r.get('outcome')})
+
+# ------------------------------------------------------------------ expressions that are heavy, or fail only when evaluated
+# A filter / posted rule list / log script is configuration too: it is refused with a message, or accepted and then
+# survives traffic. Families: (a) arithmetic at the edges of i64 for every operator, (b) every nesting construct x depth
+# and operator chains x length (the tree an operator chain folds into is as deep as the chain is long), (c) syntax
+# errors inside n parentheses (time to the verdict).
+def nest(k, n, op='+1', leaf='1'):
+    e = leaf
+    for _ in range(k):
+        e = '(' + e + ')' + op * n
+    return e
+
+EDGE = ['(1 << 63)', '(0 - 1)', '0', '1', '9223372036854775807', 'request.target.port']
+OPS = ['+', '-', '*', '/', '%', '<<', '>>']
+ARITH = {op: [f'({a} {op} {b}) == 0' for a in EDGE for b in EDGE] for op in OPS}
+thorough = tier() == 'thorough'
+HEAVY = []
+for k in ((1, 2, 3, 4, 6, 8, 12, 16, 24, 31) if thorough else (2, 6, 8, 31)):
+    for n in ((1, 4, 16, 64, 127, 255) if thorough else (1, 255)):
+        HEAVY.append((f'chains: {k} parentheses x {n} operators', nest(k, n) + ' == 1'))
+        if thorough:
+            HEAVY.append((f'chains: {k} parentheses x {n} ||', nest(k, n, ' || false', 'true')))
+for k in ((4, 8, 12, 14, 15, 16, 17, 24, 30, 31, 32, 40) if thorough else (15, 16, 31)):
+    HEAVY += [
+        (f'arrays nested {k}', '[' * k + '1' + ']' * k + '[0]' * k + ' == 1'),
+        (f'tuples nested {k}', '(' * k + '1' + ',)' * k + '.0' * k + ' == 1'),
+        (f'unary x {k}', '!' * k + 'true'),
+        (f'templates nested {k}', '`${' * k + '"x"' + '}`' * k + ' == "x"'),
+        (f'calls nested {k}', 'to_integer(to_string(' * k + '1' + '))' * k + ' == 1'),
+        (f'if nested {k}', 'if true then (' * k + 'true' + ') else false' * k),
+        (f'let nested {k}', 'let a=1 in (' * k + 'a == 1' + ')' * k),
+    ]
+for n in ((4, 6, 8, 10, 12, 14, 20, 31) if thorough else (10, 14, 31)):
+    for tail in (('1,2', '1 1', '1,2)', '1 ; ', '"abc') if thorough else ('1,2', '1 1')):
+        HEAVY.append((f'syntax error inside {n} parentheses ({tail})', '(' * n + tail))
+        if thorough:
+            HEAVY.append((f'syntax error inside {n} x if ( ({tail})', 'if (' * n + tail))
+LIMIT = 20.0
+
+def rules_case(c):
+    """path 1: the filters in the configuration file (--test, then start and traffic)"""
+    name, filters = c
+    cfg, hp, sp, ap = base()
+    cfg['rules'] = [{'filter': f, 'target': 'direct'} for f in filters] + [{'target': 'direct'}]
+    px = Proxy(cfg, 'c18x')
+    px.api_port = ap
+    try:
+        t0 = time.time()
+        rc, out = px.test_mode(timeout=LIMIT)
+        if rc == 'timeout':
+            return {'verdict': ('config.test', 'no-verdict-in-time', f'{name}: `--test` gave no verdict within {LIMIT:.0f} s')}
+        if rc not in (0, 1):
+            return {'verdict': ('config.test', 'crash-in-test-mode', f'{name}: `--test` ended with {rc}: {out[-200:]}')}
+        if rc == 1:
+            return {'outcome': 'rejected'}
+        if not px.start([hp, sp], timeout=8):
+            return {'verdict': ('config.startup', 'accepted-by-test-then-no-startup', f'{name}: `--test` says ok, start-up ends with {px.returncode()}: {px.log()[-200:]}')}
+        outs = probe(px, hp, sp)
+        time.sleep(0.2)
+        if not px.alive():
+            return {'verdict': ('config.traffic', 'accepted-then-dies-under-traffic', f'{name}: accepted, then the process ended with {px.returncode()} after {outs}: {px.log()[-300:]}')}
+        if not outs[0].startswith('http:200'):
+            return {'verdict': ('config.traffic', 'request-not-served-by-a-later-rule', f'{name}: the catch-all rule after the filter did not serve the request: {outs}')}
+        return {'outcome': 'accepted-and-alive'}
+    finally:
+        px.stop()
+
+def post_case(c):
+    """path 2: the same filters posted to a running proxy"""
+    name, filters = c
+    cfg, hp, sp, ap = base()
+    px = Proxy(cfg, 'c18p')
+    px.api_port = ap
+    try:
+        if not px.start([hp, sp, ap], timeout=8):
+            return ('machinery', px.log()[-200:])
+        body = json.dumps([{'filter': f, 'target': 'direct'} for f in filters] + [{'target': 'direct'}])
+        st, data = px.api('POST', '/rules', body, timeout=LIMIT)
+        time.sleep(0.1)
+        if not px.alive():
+            return {'verdict': ('rules.post', 'posted-rule-list-kills-proxy', f'{name}: POST /api/rules ({len(body)} bytes) ended the process with {px.returncode()}: {px.log()[-300:]}')}
+        if st is None:
+            return {'verdict': ('rules.post', 'posted-rule-list-never-answered', f'{name}: POST /api/rules got no answer within {LIMIT:.0f} s: {data[:100]}')}
+        outs = probe(px, hp, sp)
+        time.sleep(0.2)
+        if not px.alive():
+            return {'verdict': ('rules.post', 'accepted-post-then-dies-under-traffic', f'{name}: POST answered {st}, then the process ended with {px.returncode()} after {outs}: {px.log()[-300:]}')}
+        if not outs[0].startswith('http:200'):
+            return {'verdict': ('rules.post', 'request-not-served-after-post', f'{name}: POST answered {st}; afterwards {outs}')}
+        return {'outcome': f'post:{st}'}
+    finally:
+        px.stop()
+
+def script_case(c):
+    """path 3: the expression as access-log format script (evaluated when the configuration is loaded)"""
+    name, expr = c
+    cfg, hp, sp, ap = base()
+    px = Proxy(cfg, 'c18s')
+    cfg['accessLog'] = {'path': os.path.join(px.dir, 'access.log'), 'format': {'script': expr}}
+    json.dump(cfg, open(px.cfg_path, 'w'), indent=1)
+    rc, out = px.test_mode(timeout=LIMIT)
+    px.stop()
+    if rc == 'timeout':
+        return {'verdict': ('config.test', 'no-verdict-in-time:log-script', f'{name}: `--test` gave no verdict within {LIMIT:.0f} s')}
+    if rc not in (0, 1):
+        return {'verdict': ('config.test', 'crash-in-test-mode:log-script', f'{name}: `--test` ended with {rc}: {out[-200:]}')}
+    return {'outcome': f'script:{rc}'}
+
+XCASES = [(f'arithmetic {op} at the edges of i64', fs) for op, fs in ARITH.items()] + [(n, [f]) for n, f in HEAVY]
+SCASES = [(f'log script {a} {op} {b}', f'to_string({a} {op} {b})') for op in OPS for a in EDGE[:5] for b in EDGE[:5]] + \
+         [(f'log script {n}', f'to_string({f})') for n, f in HEAVY]
+xr = run_parallel(XCASES, rules_case, workers=12)
+pr = run_parallel(XCASES, post_case, workers=12)
+sr = run_parallel(SCASES, script_case, workers=12)
+for path, cases, res in (('file', XCASES, xr), ('post', XCASES, pr), ('script', SCASES, sr)):
+    for c, r in zip(cases, res):
+        evals += 1
+        if isinstance(r, tuple):
+            machinery(f'{path} {c[0]}: {r}')
+        if 'verdict' in r:
+            site, cls, detail = r['verdict']
+            fam = c[0].split(':')[0].split(' nested')[0].split(' inside')[0].split(' x ')[0]
+            chk.violation(site, f'{cls}:{fam}', detail, {'path': path, 'case': c[0], 'expression': (c[1] if isinstance(c[1], str) else c[1][:3])})
+        distinct.add((path, r.get('outcome') or r['verdict'][1]))
+if len(samples) < 6:
+    samples.append({'expression_cases': len(XCASES), 'script_cases': len(SCASES), 'example': HEAVY[1]})
 origin.stop(); uorigin.stop()
 if evals < 30 or len(distinct) < 3:
     machinery(f'vacuous: evals={evals} distinct={distinct}')
 cov = {'evaluations': evals, 'distinct_nontrivial': len(distinct), 'transitions': evals, 'traces_validated_against_impl': evals,
-       'rule': 'real binary: grid of configuration mutants (start-up-only fields, TLS files, balancer graphs, rule filters, every numeric field at 0, 1, 2^31, 2^32+1, 2^53, 2^63-1, 2^63, 2^64-1); `--test x` exit status, then start-up, one request per listener and one UDP association, a rule POST naming every connector, one GC pass; the process must stay alive',
+       'rule': 'real binary: grid of configuration mutants (start-up-only fields, TLS files, balancer graphs, rule filters, every numeric field at 0, 1, 2^31, 2^32+1, 2^53, 2^63-1, 2^63, 2^64-1); `--test x` exit status, then start-up, one request per listener and one UDP association, a rule POST naming every connector, one GC pass; the process must stay alive. Expressions: arithmetic of every operator over the edges of i64, every nesting construct x depth, operator chains x length x parentheses, syntax errors inside n parentheses - each as rule filter in the file, as posted rule list and as log script: a verdict within 20 s, and an accepted one survives traffic',
        'mutants': len(MUTANTS), 'schedule_control': 'kernel', 'samples': samples}
 sys.exit(chk.finish('model_checking', cov, ['E4 part: `--test` needs a dummy value (`--test x`) because the clap argument has no flag action']))
